@@ -303,6 +303,8 @@ func subKey(s string) string {
 		return "set ip access-group " + w[len(w)-1]
 	case len(w) >= 2 && w[0] == "crypto" && w[1] == "map":
 		return "crypto map"
+	case len(w) == 4 && w[0] == "certificate-group-map":
+		return strings.Join(w[:3], " ")
 	}
 	return s
 }
@@ -515,6 +517,13 @@ func lineKey(l string) string {
 	}
 	if len(w) >= 3 && w[0] == "tunnel-group" && w[2] == "type" {
 		return strings.Join(w[:3], " ")
+	}
+	// One certificate rule (map name + index) is bound to one tunnel-group.
+	if len(w) == 4 && w[0] == "tunnel-group-map" {
+		return strings.Join(w[:3], " ")
+	}
+	if len(w) == 3 && w[0] == "tunnel-group-map" && w[1] == "default-group" {
+		return "tunnel-group-map default-group"
 	}
 	return l
 }
